@@ -42,3 +42,37 @@ Section Interleave.
           end
     end.
 End Interleave.
+
+(* ---- executable form of the hypotheses of the whole-run theorem for
+   float-compute plans (Proofs/InterInv.v; soundness: plan_okb_sound there) ---- *)
+From VF Require Import Gen.Enums.
+
+Definition isdeqb (i : inst) : bool := qtrans_eqb (i_trans i) Tr_ADD_DEQUANTIZE.
+Definition float_instb (i : inst) : bool :=
+  qtrans_eqb (i_trans i) Tr_ADD_DEQUANTIZE || qtrans_eqb (i_trans i) Tr_NO_QUANTIZE.
+
+Definition deq_okb (g0 : subgraph) (i : inst) : bool :=
+  (i_producer i <? 0) && (0 <=? i_tensor i) && (i_tensor i <? lenZ (sg_tensors g0))
+  && forallb (fun o0 => negb (memZ (i_tensor i) (o_outs o0))) (sg_ops g0)
+  && forallb (fun j => 0 <=? j) (i_consumers i)
+  && forallb (fun jo => negb (memZ (i_tensor i) (o_ins (snd jo))) || memZ (fst jo) (i_consumers i))
+             (enumerate (sg_ops g0)).
+
+Definition ti_okb (k : nat) (g0 : subgraph) (ti : tinsts) : bool :=
+  forallb float_instb (ti_insts ti)
+  && (negb (Z.eqb (ti_sg ti) (Z.of_nat k))
+      || match filter isdeqb (ti_insts ti) with
+         | [] => true
+         | [i] => deq_okb g0 i
+         | _ => false
+         end).
+
+Definition deq_tensorsb (k : nat) (tis : list tinsts) : list Z :=
+  flat_map (fun ti => if Z.eqb (ti_sg ti) (Z.of_nat k)
+                      then map i_tensor (filter isdeqb (ti_insts ti)) else []) tis.
+
+Fixpoint nodupZ (l : list Z) : bool :=
+  match l with [] => true | x :: r => negb (memZ x r) && nodupZ r end.
+
+Definition plan_okb (k : nat) (g0 : subgraph) (tis : list tinsts) : bool :=
+  forallb (ti_okb k g0) tis && nodupZ (deq_tensorsb k tis).
